@@ -162,16 +162,138 @@ def path_language(eng, target, extra=None):
     return lang
 
 
-def _empty(eng, lang, timeout_ms):
+# ------------------------------------------------------------------------------ alphabet compression
+_BASE = 0x4E00      # block i of the partition is represented by the code point _BASE + i
+
+
+def _collect_cuts(r, cuts, seen):
+    if r.get_id() in seen:
+        return
+    seen.add(r.get_id())
+    k = r.decl().kind()
+    if k == z3.Z3_OP_RE_RANGE:
+        lo, hi = z3str_to_py(r.arg(0)), z3str_to_py(r.arg(1))
+        if len(lo) != 1 or len(hi) != 1:
+            raise ValueError("range over non-characters")
+        cuts.add(ord(lo))
+        cuts.add(ord(hi) + 1)
+    elif k == z3.Z3_OP_SEQ_TO_RE:
+        if not z3.is_string_value(r.arg(0)):
+            raise ValueError("regex of a non-constant string")
+        for ch in z3str_to_py(r.arg(0)):
+            cuts.add(ord(ch))
+            cuts.add(ord(ch) + 1)
+    elif k in (z3.Z3_OP_RE_FULL_SET, z3.Z3_OP_RE_FULL_CHAR_SET, z3.Z3_OP_RE_EMPTY_SET):
+        pass
+    elif k in (z3.Z3_OP_RE_PLUS, z3.Z3_OP_RE_STAR, z3.Z3_OP_RE_OPTION, z3.Z3_OP_RE_CONCAT, z3.Z3_OP_RE_UNION, z3.Z3_OP_RE_LOOP,
+               z3.Z3_OP_RE_INTERSECT, z3.Z3_OP_RE_COMPLEMENT, z3.Z3_OP_RE_DIFF):
+        for c in r.children():
+            _collect_cuts(c, cuts, seen)
+    else:
+        raise ValueError(f"regex operator {r.decl().name()} not handled by the alphabet compression")
+
+
+def _map_regex(r, bounds, memo):
+    """Rewrite r over the block alphabet: block i (code points bounds[i] .. bounds[i+1]-1) becomes the character _BASE+i."""
+    i = r.get_id()
+    if i in memo:
+        return memo[i]
+    import bisect
+    nblocks = len(bounds) - 1
+    allc = z3.Range(chr(_BASE), chr(_BASE + nblocks - 1)) if nblocks > 1 else z3.Re(chr(_BASE))
+    k = r.decl().kind()
+
+    def blk(cp):
+        return bisect.bisect_right(bounds, cp) - 1
+    if k == z3.Z3_OP_RE_RANGE:
+        lo, hi = ord(z3str_to_py(r.arg(0))), ord(z3str_to_py(r.arg(1)))
+        if lo > hi:
+            out = z3.Empty(RE_SORT)
+        else:
+            a, b = blk(lo), blk(hi)
+            out = z3.Range(chr(_BASE + a), chr(_BASE + b)) if a != b else z3.Re(chr(_BASE + a))
+    elif k == z3.Z3_OP_SEQ_TO_RE:
+        out = z3.Re("".join(chr(_BASE + blk(ord(ch))) for ch in z3str_to_py(r.arg(0))))
+    elif k == z3.Z3_OP_RE_FULL_CHAR_SET:
+        out = allc
+    elif k == z3.Z3_OP_RE_FULL_SET:
+        out = z3.Star(allc)
+    elif k == z3.Z3_OP_RE_EMPTY_SET:
+        out = r
+    else:
+        ch = [_map_regex(c, bounds, memo) for c in r.children()]
+        if k == z3.Z3_OP_RE_PLUS:
+            out = z3.Plus(ch[0])
+        elif k == z3.Z3_OP_RE_STAR:
+            out = z3.Star(ch[0])
+        elif k == z3.Z3_OP_RE_OPTION:
+            out = z3.Option(ch[0])
+        elif k == z3.Z3_OP_RE_CONCAT:
+            out = z3.Concat(*ch)
+        elif k == z3.Z3_OP_RE_UNION:
+            out = z3.Union(*ch)
+        elif k == z3.Z3_OP_RE_INTERSECT:
+            out = z3.Intersect(*ch)
+        elif k == z3.Z3_OP_RE_DIFF:
+            out = z3.Intersect(ch[0], z3.Intersect(z3.Complement(ch[1]), z3.Star(allc)))
+        elif k == z3.Z3_OP_RE_COMPLEMENT:
+            out = z3.Intersect(z3.Complement(ch[0]), z3.Star(allc))     # complement relative to the block alphabet
+        elif k == z3.Z3_OP_RE_LOOP:
+            ps = r.params()
+            out = _loop(ch[0], ps[0], ps[1]) if len(ps) == 2 else z3.Concat(*([ch[0]] * ps[0]), z3.Star(ch[0])) if ps[0] else z3.Star(ch[0])
+        else:
+            raise ValueError("unreachable")
+    memo[i] = out
+    return out
+
+
+def solve_regular(eng, memberships, timeout_ms):
+    """Is there a string that satisfies all (regex, positive?) memberships?  -> ("sat", witness) / ("unsat", None) /
+    ("unknown", None).  The query is solved over the *partition alphabet* induced by the character ranges that occur in
+    the regexes (membership only depends on the block of each character), which keeps Unicode classes with hundreds of
+    ranges cheap; the witness is mapped back to the lowest code point of each block."""
+    eng.stats["regular_queries"] = eng.stats.get("regular_queries", 0) + 1
     x = z3.String("__regular_lemma_x")
+    # first the query as it is (z3 handles complements and intersections natively), with part of the time budget
+    s0 = z3.Solver()
+    s0.set("timeout", max(500, timeout_ms // 2))
+    s0.add(*[z3.InRe(x, r) if pos else z3.Not(z3.InRe(x, r)) for r, pos in memberships])
+    r0 = s0.check()
+    if r0 == z3.unsat:
+        eng.stats["regular_proved"] = eng.stats.get("regular_proved", 0) + 1
+        return "unsat", None
+    if r0 == z3.sat:
+        return "sat", z3str_to_py(s0.model().eval(x, model_completion=True))
+    try:
+        cuts, seen = {0, 0x30000}, set()
+        for r, _ in memberships:
+            _collect_cuts(r, cuts, seen)
+        bounds = sorted(c for c in cuts if 0 <= c <= 0x30000)
+        memo = {}
+        nblocks = len(bounds) - 1
+        allc = z3.Range(chr(_BASE), chr(_BASE + nblocks - 1)) if nblocks > 1 else z3.Re(chr(_BASE))
+        cons = [z3.InRe(x, z3.Star(allc))]
+        for r, pos in memberships:
+            m = z3.InRe(x, _map_regex(r, bounds, memo))
+            cons.append(m if pos else z3.Not(m))
+        decode = lambda w: "".join(chr(bounds[ord(ch) - _BASE]) for ch in w)   # noqa: E731
+    except (ValueError, z3.Z3Exception):
+        cons = [z3.InRe(x, r) if pos else z3.Not(z3.InRe(x, r)) for r, pos in memberships]
+        decode = lambda w: w   # noqa: E731
     s = z3.Solver()
     s.set("timeout", timeout_ms)
-    s.add(z3.InRe(x, lang))
-    eng.stats["regular_queries"] = eng.stats.get("regular_queries", 0) + 1
-    if s.check() == z3.unsat:
+    s.add(*cons)
+    res = s.check()
+    if res == z3.unsat:
         eng.stats["regular_proved"] = eng.stats.get("regular_proved", 0) + 1
-        return True
-    return False
+        return "unsat", None
+    if res == z3.sat:
+        return "sat", decode(z3str_to_py(s.model().eval(x, model_completion=True)))
+    return "unknown", None
+
+
+def _empty(eng, lang, timeout_ms):
+    return solve_regular(eng, [(lang, True)], timeout_ms)[0] == "unsat"
 
 
 def _hosts(eng, v):
@@ -235,12 +357,10 @@ def prove_membership(eng, cond, timeout_ms=5000):
         lang = path_language(eng, t)
     except z3.Z3Exception:
         return False
-    x = z3.String("__regular_lemma_x")
-    s = z3.Solver()
-    s.set("timeout", timeout_ms)
-    s.add(z3.InRe(x, lang), z3.Not(z3.InRe(x, R)) if want_in else z3.InRe(x, R))
-    eng.stats["regular_queries"] = eng.stats.get("regular_queries", 0) + 1
-    if s.check() == z3.unsat:
-        eng.stats["regular_proved"] = eng.stats.get("regular_proved", 0) + 1
+    res, witness = solve_regular(eng, [(lang, True), (R, not want_in)], timeout_ms)
+    if res == "unsat":
         return True
+    if res == "sat":
+        # a string of the over-approximated path language that violates the membership: a candidate counterexample
+        eng.last_regular_witness = (t, witness)
     return False
